@@ -29,6 +29,10 @@ Pipeline of one run (`zoo_pipeline`):
      guard of one present resource was leaked (mem::forget) before the setup (the pinned code
      panics at the member that provides it and modifies nothing); Default::default() must never
      be evaluated for a resource that exists.
+     Read-only storm: for the dedicated read-only shapes and a spread of other read-only zoo shapes,
+     7 threads (4 std, 3 rayon workers) fetch the same type from one shared &World for 30 ms through
+     T::fetch, World::system_data and RunNow::run_now, partly holding the data across further
+     fetches; a declared read takes a SHARED borrow, so any failure is an InvC06borrow violation.
   3. the binaries run every type: reads()/writes() (type and StaticAccessor of a real System),
      fetch through 4 paths with single-threaded borrow probes while alive / after drop,
      setup through 4 paths on worlds with distinctive pre-existing values.  Observations are
@@ -146,9 +150,9 @@ def run_mc(ctx, tier, workers_each=3, light=False):
 
 def budgets(tier, scale=1.0):
     if tier == "quick":
-        b = {"n_mc": 800, "n_arity": 450, "n_rot": 52, "n_deep": 260, "n_wide": 200, "n_twin": 48, "units": 8}
+        b = {"n_mc": 800, "n_arity": 450, "n_rot": 52, "n_deep": 260, "n_wide": 200, "n_twin": 48, "n_storm": 16, "units": 8}
     else:
-        b = {"n_mc": 9000, "n_arity": 0, "n_rot": 260, "n_deep": 3000, "n_wide": 2500, "n_twin": 400, "units": 8}   # n_arity 0 = whole table
+        b = {"n_mc": 9000, "n_arity": 0, "n_rot": 260, "n_deep": 3000, "n_wide": 2500, "n_twin": 400, "n_storm": 120, "units": 8}   # n_arity 0 = whole table
     if scale != 1.0:
         for k in ("n_mc", "n_arity", "n_rot", "n_deep", "n_wide", "n_twin"):
             b[k] = int(b[k] * scale) if b[k] else b[k]
@@ -175,7 +179,7 @@ def build_and_run(ctx, mc_results, tier, scale=1.0):
         try:
             t = time.time()
             stats, units = zg.generate(mc_files, ar_files, ctx.seed, b["n_mc"], b["n_arity"], b["n_rot"], b["n_deep"],
-                                       b["n_wide"], gen_out, desc_dir, units=b["units"], n_twin=b["n_twin"])
+                                       b["n_wide"], gen_out, desc_dir, units=b["units"], n_twin=b["n_twin"], n_storm=b["n_storm"])
             stats["gen_wall_s"] = round(time.time() - t, 1)
             # unoptimised, no debug info: the zoo is thousands of monomorphisations (x-zoo has its own target dir)
             saved = {k: os.environ.get(k) for k in ("CARGO_PROFILE_DEV_OPT_LEVEL", "CARGO_PROFILE_DEV_DEBUG")}
@@ -281,6 +285,8 @@ def zoo_pipeline(ctx, invariants, tier=None, scale=1.0, what="", light=False):
         "members_spelled_as_bare_type_parameter": stats["members_spelled_as_bare_type_parameter"],
         "custom_handler_leaves": stats["custom_handler_leaves"],
         "dynamic_id_sibling_cells": stats["dynamic_id_sibling_cells"],
+        "read_only_storm": {"shapes": tot.get("storm_blocks", 0), "concurrent_fetches": tot.get("storm_ops", 0),
+                            "failed": tot.get("storm_fail", 0), "threads": "4 std + 3 rayon workers", "ms_per_shape": 30},
         "resources_with_panicking_default": stats["resources_with_panicking_default"],
         "max_struct_fields": stats["max_struct_fields"],
         "setup_runs_with_a_leaked_guard": tot.get("setup_leaked", 0), "setup_runs_that_panicked": tot.get("setup_panics", 0),
